@@ -1,6 +1,960 @@
-use crate::worker::Ctx;
+//! The `proc` engine: the real n2 binary (hooks off) with real /bin/sh
+//! commands that observe their own environment.  Enumerates the finite
+//! configuration lattices of C16 (command strings, output volumes, exit codes,
+//! signals, -j) and the binary-level parts of C12, C18 and C19.  The kernel's
+//! interleaving of real children is not controllable: each configuration is
+//! run once and the oracles only state what must hold for every interleaving.
+//! Also hosts the exhaustive enumeration of the /showIncludes filter.
+
+use crate::worker::{catch, Ctx, Tier};
+use serde_json::{json, Value};
+use std::process::Command;
+use vcore::enumerate::{count_upto, for_range, shard_range};
 use vcore::report::ShardResult;
 
-pub fn run(_ctx: &mut Ctx) -> ShardResult {
-    unimplemented!("engine proc")
+const N2: &str = "/verif/target/n2bin/debug/n2";
+
+pub fn jobs(prop: &str, tier: Tier) -> Vec<(String, u64)> {
+    match prop {
+        "C09" => vec![("proc:msvc".into(), 2)],
+        "C16" => vec![
+            ("proc:fdleak".into(), 1),
+            ("proc:dirs".into(), 1),
+            ("proc:msvc".into(), 2),
+            ("proc:argv".into(), 8),
+            ("proc:volume".into(), 8),
+            ("proc:status".into(), 16),
+            ("proc:parallel".into(), 5),
+            (format!("proc:filter:{}", tier.pick(7, 8)), 16),
+        ],
+        "C18" => vec![("proc:flags".into(), 4)],
+        "C02" | "C03" => vec![("proc:conform".into(), 8)],
+        "C19" => vec![("proc:summary".into(), 1)],
+        "C12" => vec![("proc:errors".into(), 1)],
+        _ => vec![],
+    }
+}
+
+struct Out {
+    stdout: Vec<u8>,
+    code: Option<i32>,
+}
+
+fn n2(args: &[&str]) -> Out {
+    let o = Command::new(N2)
+        .args(args)
+        .stdin(std::process::Stdio::null())
+        .env_remove("NINJA_STATUS")
+        .output()
+        .expect("run n2 binary");
+    let mut stdout = o.stdout;
+    stdout.extend_from_slice(&o.stderr);
+    Out {
+        stdout,
+        code: o.status.code(),
+    }
+}
+
+fn fresh() {
+    crate::exec::clear_dir();
+}
+
+fn ninja_escape_cmd(c: &str) -> String {
+    c.replace('$', "$$")
+}
+
+fn find_all(hay: &[u8], needle: &[u8]) -> usize {
+    if needle.is_empty() || hay.len() < needle.len() {
+        return 0;
+    }
+    hay.windows(needle.len()).filter(|w| *w == needle).count()
+}
+
+// --- argv / environment ------------------------------------------------------
+
+const PAYLOADS: &[&str] = &[
+    "true",
+    "echo 'single quoted  text' > q.out",
+    "echo \"double quoted $HOME text\" > q.out",
+    "echo a;echo b > q.out",
+    "true && echo ok > q.out || echo no > q.out",
+    "(cd . && echo sub) > q.out",
+    "echo \\\\back\\\\slash 'it''s' > q.out",
+    "echo ünïcödé ☃ > q.out",
+    "x=1; echo $x ${x}2 $((x+1)) > q.out",
+    "echo a\tb   c > q.out",
+    "echo * ? [a] {b,c} ~ > q.out",
+    "echo '#' not a comment | cat > q.out",
+    "echo `echo tick` $(echo paren) > q.out",
+    "echo : '|' '||' ':' > q.out 2>&1 </dev/null",
+];
+
+fn argv_job(ctx: &mut Ctx, res: &mut ShardResult) {
+    let job = ctx.job.clone();
+    for (i, payload) in PAYLOADS.iter().enumerate() {
+        if i as u64 % ctx.nshards != ctx.shard && ctx.replay.is_none() {
+            continue;
+        }
+        if let Some(c) = &ctx.replay {
+            if c["index"].as_u64() != Some(i as u64) {
+                continue;
+            }
+        }
+        for variant in 0..3 {
+            ctx.marker.set(i as u64, payload.as_bytes());
+            fresh();
+            res.evaluations += 1;
+            // The command observes its own argv, stdin, descriptors and cwd.
+            let probe = "cat /proc/$$/cmdline > cmdline.out; readlink /proc/$$/fd/0 > stdin.out; for f in /proc/$$/fd/*; do readlink $f; done > fds.out; pwd > pwd.out";
+            let full = format!("{}; {}", payload, probe);
+            let out_path = match variant {
+                0 => "out",
+                1 => "d1/d2/out",
+                _ => "d 3/out",
+            };
+            let full = format!("{}; touch '{}'", full, out_path);
+            let mut manifest = String::new();
+            manifest.push_str(&format!("rule r\n  command = {}\n", ninja_escape_cmd(&full)));
+            if variant == 1 {
+                manifest.push_str("  rspfile = d1/rsp/$out.rsp\n  rspfile_content = $in -x \"q\" $$HOME é\n");
+            }
+            manifest.push_str(&format!("build {}: r in1 in2\n", out_path.replace(' ', "$ ")));
+            std::fs::write("build.ninja", &manifest).unwrap();
+            std::fs::write("in1", "1").unwrap();
+            std::fs::write("in2", "2").unwrap();
+            let o = n2(&[]);
+            let replay = || json!({"job": job, "index": i, "variant": variant, "manifest": manifest});
+            let text = String::from_utf8_lossy(&o.stdout).to_string();
+            if o.code != Some(0) {
+                res.violation("command-did-not-run-cleanly", || format!("payload {:?}: n2 exit {:?}, output:\n{}", payload, o.code, text), replay);
+                continue;
+            }
+            let cmdline = std::fs::read("cmdline.out").unwrap_or_default();
+            let mut expect = b"/bin/sh\0-c\0".to_vec();
+            expect.extend_from_slice(full.as_bytes());
+            expect.push(0);
+            if cmdline != expect {
+                res.violation("argv-differs-from-evaluated-command", || format!("command {:?} ran as {:?}", full, String::from_utf8_lossy(&cmdline)), replay);
+                continue;
+            }
+            let stdin = std::fs::read_to_string("stdin.out").unwrap_or_default();
+            if stdin.trim() != "/dev/null" {
+                res.violation("stdin-not-dev-null", || format!("stdin of the command is {:?}", stdin), replay);
+                continue;
+            }
+            let fds = std::fs::read_to_string("fds.out").unwrap_or_default();
+            let mut pipes = std::collections::BTreeSet::new();
+            let mut bad = Vec::new();
+            for l in fds.lines() {
+                if l == "/dev/null" || l.starts_with("/proc/") || l.ends_with("/fds.out") {
+                    continue;
+                }
+                if l.starts_with("pipe:") {
+                    pipes.insert(l.to_string());
+                    continue;
+                }
+                bad.push(l.to_string());
+            }
+            if !bad.is_empty() || pipes.len() > 1 {
+                res.violation("descriptor-leaked-into-command", || format!("descriptors seen by the command: {:?} (pipes {:?})", bad, pipes), replay);
+                continue;
+            }
+            let cwd = std::env::current_dir().unwrap();
+            let pwd = std::fs::read_to_string("pwd.out").unwrap_or_default();
+            if std::path::Path::new(pwd.trim()) != cwd {
+                res.violation("wrong-working-directory", || format!("command ran in {:?}, build directory is {:?}", pwd.trim(), cwd), replay);
+                continue;
+            }
+            if !std::path::Path::new(out_path).exists() {
+                res.violation("output-directory-not-created", || format!("{} was not created", out_path), replay);
+                continue;
+            }
+            if variant == 1 {
+                let rsp = std::fs::read("d1/rsp/d1/d2/out.rsp").unwrap_or_default();
+                let want = "in1 in2 -x \"q\" $HOME é".as_bytes();
+                if rsp != want {
+                    res.violation("rspfile-content-differs", || format!("rspfile holds {:?}, expected {:?}", String::from_utf8_lossy(&rsp), String::from_utf8_lossy(want)), replay);
+                    continue;
+                }
+            }
+            res.nontrivial += 1;
+            res.outcome("argv-ok");
+        }
+    }
+    res.sample(|| json!({"payloads": PAYLOADS}));
+}
+
+// --- output volume ------------------------------------------------------------
+
+const SIZES: &[usize] = &[0, 1, 4095, 4096, 4097, 8191, 8192, 65535, 65536, 65537, 200_000];
+
+fn volume_job(ctx: &mut Ctx, res: &mut ShardResult) {
+    let job = ctx.job.clone();
+    let mut idx = 0u64;
+    for &size in SIZES {
+        for mode in ["stdout", "stderr", "alternate", "twosteps"] {
+            idx += 1;
+            if let Some(c) = &ctx.replay {
+                if c["index"].as_u64() != Some(idx) {
+                    continue;
+                }
+            } else if idx % ctx.nshards != ctx.shard {
+                continue;
+            }
+            ctx.marker.set(idx, format!("{} {}", size, mode).as_bytes());
+            fresh();
+            res.evaluations += 1;
+            let gen = format!("head -c {} /dev/zero | tr '\\0' x", size);
+            let (cmd, expect): (String, Vec<u8>) = match mode {
+                "stdout" => (format!("printf START; {}; printf END", gen), [b"START".to_vec(), vec![b'x'; size], b"END".to_vec()].concat()),
+                "stderr" => (format!("(printf START; {}; printf END) >&2", gen), [b"START".to_vec(), vec![b'x'; size], b"END".to_vec()].concat()),
+                "alternate" => {
+                    let chunks = 8;
+                    let per = size / chunks;
+                    let mut e = b"START".to_vec();
+                    for i in 0..chunks {
+                        e.extend_from_slice(format!("o{}", i).as_bytes());
+                        e.extend(vec![b'x'; per]);
+                        e.extend_from_slice(format!("e{}", i).as_bytes());
+                        e.extend(vec![b'y'; per]);
+                    }
+                    e.extend_from_slice(b"END");
+                    (
+                        format!("printf START; for i in 0 1 2 3 4 5 6 7; do printf o$i; head -c {per} /dev/zero | tr '\\0' x; printf e$i >&2; head -c {per} /dev/zero | tr '\\0' y >&2; done; printf END", per = per),
+                        e,
+                    )
+                }
+                _ => (format!("printf START; {}; printf END", gen), [b"START".to_vec(), vec![b'x'; size], b"END".to_vec()].concat()),
+            };
+            let mut manifest = format!("rule r\n  command = {}\n  description = STEP $out\nbuild a: r\n", ninja_escape_cmd(&cmd));
+            if mode == "twosteps" {
+                // a second, concurrent step with its own distinct payload
+                let cmd2 = cmd.replace("START", "BEGIN2").replace("END", "FINISH2").replace(" x", " z");
+                manifest.push_str(&format!("rule r2\n  command = {}\n  description = STEP2 $out\nbuild b: r2\n", ninja_escape_cmd(&cmd2)));
+            }
+            std::fs::write("build.ninja", &manifest).unwrap();
+            let o = n2(&["-j", "2"]);
+            let replay = || json!({"job": job, "index": idx, "size": size, "mode": mode});
+            // Both commands fail to create their outputs (they only print),
+            // which is fine: n2 reports success and the text is what matters.
+            if find_all(&o.stdout, &expect) != 1 {
+                let head: String = String::from_utf8_lossy(&o.stdout).chars().take(300).collect();
+                res.violation(
+                    "output-not-intact",
+                    || format!("{} bytes via {}: the payload (START…END, {} bytes) appears {} times contiguously in n2's output ({} bytes): {:?}…", size, mode, expect.len(), find_all(&o.stdout, &expect), o.stdout.len(), head),
+                    replay,
+                );
+                continue;
+            }
+            if find_all(&o.stdout, b"START") != 1 || find_all(&o.stdout, b"END") != 1 {
+                res.violation("output-duplicated", || format!("{} bytes via {}: START/END markers appear more than once", size, mode), replay);
+                continue;
+            }
+            if mode == "twosteps" {
+                let e2: Vec<u8> = [b"BEGIN2".to_vec(), vec![b'z'; size], b"FINISH2".to_vec()].concat();
+                if find_all(&o.stdout, &e2) != 1 {
+                    res.violation("output-not-intact", || format!("{} bytes from the second concurrent command were not printed contiguously once", size), replay);
+                    continue;
+                }
+            }
+            res.nontrivial += 1;
+            res.outcome(&format!("volume-ok-{}", mode));
+        }
+    }
+    res.sample(|| json!({"sizes": SIZES}));
+}
+
+// --- exit status and signals ---------------------------------------------------
+
+fn status_job(ctx: &mut Ctx, res: &mut ShardResult) {
+    let job = ctx.job.clone();
+    // (kind, number)
+    let mut cases: Vec<(&str, i32)> = (0..=255).map(|c| ("exit", c)).collect();
+    for sig in 1..=31 {
+        if [19, 20, 21, 22].contains(&sig) {
+            continue; // stop signals: the command would hang by definition
+        }
+        cases.push(("signal", sig));
+    }
+    for (i, (kind, n)) in cases.iter().enumerate() {
+        if let Some(c) = &ctx.replay {
+            if c["index"].as_u64() != Some(i as u64) {
+                continue;
+            }
+        } else if i as u64 % ctx.nshards != ctx.shard {
+            continue;
+        }
+        ctx.marker.set(i as u64, format!("{} {}", kind, n).as_bytes());
+        fresh();
+        res.evaluations += 1;
+        let cmd = match *kind {
+            "exit" => format!("touch first; exit {}", n),
+            _ => format!("touch first; kill -{} $$; sleep 0.05; true", n),
+        };
+        // `second` is independent and listed later: at -j1 it runs after
+        // `first` unless the build stops.
+        let manifest = format!(
+            "rule r\n  command = {}\nrule t\n  command = touch $out\nbuild first: r\nbuild second: t\n",
+            ninja_escape_cmd(&cmd)
+        );
+        std::fs::write("build.ninja", &manifest).unwrap();
+        let o = n2(&["-j", "1", "-k", "1"]);
+        let text = String::from_utf8_lossy(&o.stdout).to_string();
+        let replay = || json!({"job": job, "index": i, "kind": kind, "n": n});
+        let ignored_by_default = *kind == "signal" && [17, 18, 23, 28].contains(n);
+        let success_expected = (*kind == "exit" && *n == 0) || ignored_by_default;
+        // n2 (a Rust program) runs with SIGPIPE ignored and children inherit
+        // that, so `kill -PIPE $$` is a no-op for them; either disposition is
+        // accepted (the property does not speak about signal dispositions).
+        if *kind == "signal" && *n == 13 {
+            let text_ok = (o.code == Some(0) && text.contains("now up to date")) || (o.code != Some(0) && text.contains("signal 13"));
+            if !text_ok {
+                res.violation("sigpipe-neither-ignored-nor-failure", || format!("SIGPIPE: n2 exit {:?}\n{}", o.code, text), replay);
+            } else {
+                res.outcome("status-sigpipe");
+            }
+            continue;
+        }
+        let second_built = std::path::Path::new("second").exists();
+        if success_expected {
+            if o.code != Some(0) || !text.contains("now up to date") {
+                res.violation("success-reported-as-failure", || format!("{} {}: n2 exit {:?}\n{}", kind, n, o.code, text), replay);
+                continue;
+            }
+            res.outcome("status-success");
+        } else if *kind == "signal" && *n == 2 {
+            if o.code == Some(0) || !text.contains("interrupted") {
+                res.violation("sigint-not-an-interruption", || format!("SIGINT: n2 exit {:?}\n{}", o.code, text), replay);
+                continue;
+            }
+            if second_built {
+                res.violation("build-continued-after-interrupt", || format!("SIGINT: the independent later step still ran\n{}", text), replay);
+                continue;
+            }
+            res.outcome("status-interrupted");
+        } else {
+            if o.code == Some(0) || !text.contains("failed:") {
+                res.violation("failure-reported-as-success", || format!("{} {}: n2 exit {:?}\n{}", kind, n, o.code, text), replay);
+                continue;
+            }
+            if *kind == "signal" && !text.contains(&format!("signal {}", n)) {
+                res.violation("signal-not-named", || format!("signal {}: output does not name it\n{}", n, text), replay);
+                continue;
+            }
+            if second_built {
+                // -k 1: nothing is started after the first failure
+                res.violation("started-after-failure-budget", || format!("{} {}: `second` was built after the failure with -k 1\n{}", kind, n, text), replay);
+                continue;
+            }
+            res.outcome(if *kind == "exit" { "status-failure" } else { "status-signal" });
+        }
+        res.nontrivial += 1;
+    }
+    res.sample(|| json!({"exit_codes": "0..=255", "signals": "1..=31 except 19-22"}));
+}
+
+// --- parallel output ----------------------------------------------------------
+
+fn parallel_job(ctx: &mut Ctx, res: &mut ShardResult) {
+    let job = ctx.job.clone();
+    for (i, j) in [1usize, 2, 4, 8, 16].into_iter().enumerate() {
+        if let Some(c) = &ctx.replay {
+            if c["index"].as_u64() != Some(i as u64) {
+                continue;
+            }
+        } else if i as u64 % ctx.nshards != ctx.shard {
+            continue;
+        }
+        ctx.marker.set(i as u64, format!("-j {}", j).as_bytes());
+        fresh();
+        res.evaluations += 1;
+        let n = 2 * j;
+        let mut manifest = String::new();
+        for t in 0..n {
+            manifest.push_str(&format!(
+                "rule r{t}\n  command = printf 'A{t}-'; sleep 0.0{d}; head -c 5000 /dev/zero | tr '\\0' {c}; sleep 0.02; printf -- '-B{t}\\n'; touch $out\n  description = T{t}\nbuild o{t}: r{t}\n",
+                t = t,
+                d = (t % 4) + 1,
+                c = (b'a' + (t % 26) as u8) as char
+            ));
+        }
+        std::fs::write("build.ninja", &manifest).unwrap();
+        let o = n2(&["-j", &j.to_string()]);
+        let replay = || json!({"job": job, "index": i, "j": j});
+        let mut ok = o.code == Some(0);
+        for t in 0..n {
+            let block: Vec<u8> = [format!("A{}-", t).into_bytes(), vec![b'a' + (t % 26) as u8; 5000], format!("-B{}\n", t).into_bytes()].concat();
+            if find_all(&o.stdout, &block) != 1 {
+                ok = false;
+            }
+        }
+        if !ok {
+            let head: String = String::from_utf8_lossy(&o.stdout).chars().take(400).collect();
+            res.violation("concurrent-output-interleaved-or-lost", || format!("-j {} with {} commands: some command's block is not printed contiguously exactly once (exit {:?}): {:?}", j, n, o.code, head), replay);
+        } else {
+            res.nontrivial += 1;
+            res.outcome(&format!("parallel-ok-j{}", j));
+        }
+    }
+}
+
+// --- descriptors across concurrently running commands ---------------------------
+
+fn fdleak_job(ctx: &mut Ctx, res: &mut ShardResult) {
+    let job = ctx.job.clone();
+    for j in [3usize, 4] {
+        ctx.marker.set(j as u64, b"fdleak");
+        fresh();
+        res.evaluations += 1;
+        // `long` runs for 3 s; `gate` for 0.3 s; `probe` (after gate) lists its
+        // descriptors while `long` is still running.
+        let manifest = "rule long\n  command = sleep 3; touch long.done; touch $out\nrule gate\n  command = sleep 0.3; touch $out\nrule probe\n  command = for f in /proc/$$$$/fd/*; do readlink $$f; done > fds.out; if [ -e long.done ]; then echo late > late.out; fi; touch $out\nbuild l: long\nbuild g: gate\nbuild p: probe g\nbuild l2: long\n";
+        std::fs::write("build.ninja", manifest).unwrap();
+        let o = n2(&["-j", &j.to_string(), "l", "p"]);
+        let replay = || json!({"job": job, "index": j});
+        if o.code != Some(0) {
+            res.violation("command-did-not-run-cleanly", || format!("exit {:?}: {}", o.code, String::from_utf8_lossy(&o.stdout)), replay);
+            continue;
+        }
+        let fds = std::fs::read_to_string("fds.out").unwrap_or_default();
+        let mut pipes = std::collections::BTreeSet::new();
+        let mut bad = Vec::new();
+        for l in fds.lines() {
+            if l == "/dev/null" || l.starts_with("/proc/") || l.ends_with("/fds.out") {
+                continue;
+            }
+            if l.starts_with("pipe:") {
+                pipes.insert(l.to_string());
+                continue;
+            }
+            bad.push(l.to_string());
+        }
+        if !bad.is_empty() || pipes.len() > 1 {
+            res.violation("descriptor-leaked-into-command", || format!("a command started while another was running sees descriptors {:?} and pipes {:?} (its own output pipe is the only one allowed)", bad, pipes), replay);
+            continue;
+        }
+        if std::path::Path::new("late.out").exists() {
+            res.violation("completion-delayed-by-unrelated-command", || "a 0.3 s command's completion was only noticed after an unrelated 3 s command exited (its pipe was held open elsewhere)".to_string(), replay);
+            continue;
+        }
+        res.nontrivial += 1;
+        res.outcome("fdleak-ok");
+    }
+}
+
+/// Output directories are created before every command that needs them, even
+/// if an earlier command of the same invocation removed them again.
+fn dirs_job(ctx: &mut Ctx, res: &mut ShardResult) {
+    let job = ctx.job.clone();
+    ctx.marker.set(0, b"dirs");
+    for j in [1usize, 2] {
+        fresh();
+        res.evaluations += 1;
+        let manifest = "rule gen\n  command = echo generated > $out\nrule pkg\n  command = cat $in > $out && rm -rf stage\nbuild stage/a.txt: gen\nbuild pkg1.out: pkg stage/a.txt\nbuild stage/b.txt: gen || pkg1.out\nbuild pkg2.out: pkg stage/b.txt\nbuild deep/x/y/z.txt: gen || pkg2.out\n";
+        std::fs::write("build.ninja", manifest).unwrap();
+        let o = n2(&["-j", &j.to_string()]);
+        let text = String::from_utf8_lossy(&o.stdout).to_string();
+        if o.code != Some(0) || !std::path::Path::new("pkg2.out").exists() || !std::path::Path::new("deep/x/y/z.txt").exists() {
+            res.violation("output-directory-not-created", || format!("a later step's output directory was not (re)created: exit {:?}\n{}", o.code, text), || json!({"job": job, "index": j}));
+        } else {
+            res.nontrivial += 1;
+            res.outcome("dirs-ok");
+        }
+    }
+}
+
+/// deps=msvc with notes that straddle pipe reads: split in the middle of a
+/// line with a pause, and far more than one 4 KiB read at once.
+fn msvc_job(ctx: &mut Ctx, res: &mut ShardResult) {
+    let job = ctx.job.clone();
+    for variant in 0..2u64 {
+        if ctx.replay.is_none() && variant % ctx.nshards != ctx.shard {
+            continue;
+        }
+        if let Some(c) = &ctx.replay {
+            if c["index"].as_u64() != Some(variant) {
+                continue;
+            }
+        }
+        ctx.marker.set(variant, b"msvc");
+        fresh();
+        res.evaluations += 1;
+        let headers: Vec<String> = if variant == 0 { vec!["split.h".to_string()] } else { (0..300).map(|i| format!("include/dir{}/header_number_{}.h", i % 7, i)).collect() };
+        for h in &headers {
+            if let Some(p) = std::path::Path::new(h).parent() {
+                std::fs::create_dir_all(p).ok();
+            }
+            std::fs::write(h, "h").unwrap();
+        }
+        let cmd = if variant == 0 {
+            "printf 'visible line\\nNote: inclu'; sleep 0.4; printf 'ding file: split.h\\nlast line\\n'; touch $out".to_string()
+        } else {
+            "cat notes.txt; echo visible-tail; touch $out".to_string()
+        };
+        if variant == 1 {
+            let mut notes = String::from("visible-head\n");
+            for h in &headers {
+                notes.push_str(&format!("Note: including file: {}\n", h));
+            }
+            std::fs::write("notes.txt", notes.replace("\\n", "\n")).unwrap();
+        }
+        let manifest = format!("rule cc\n  command = {}\n  description = COMPILE\n  deps = msvc\nbuild out.obj: cc src.c\n", cmd);
+        std::fs::write("build.ninja", &manifest).unwrap();
+        std::fs::write("src.c", "c").unwrap();
+        let o1 = n2(&[]);
+        let t1 = String::from_utf8_lossy(&o1.stdout).to_string();
+        let replay = || json!({"job": job, "index": variant});
+        if o1.code != Some(0) {
+            res.violation("command-did-not-run-cleanly", || format!("exit {:?}: {}", o1.code, t1), replay);
+            continue;
+        }
+        if t1.contains("Note: including file") || t1.contains("ding file:") || t1.contains("header_number_") {
+            res.violation("showincludes-note-shown-to-user", || format!("n2's output still contains (part of) a note line:\n{}", t1.chars().take(600).collect::<String>()), replay);
+            continue;
+        }
+        let visible_ok = if variant == 0 { t1.contains("visible line") && t1.contains("last line") } else { t1.contains("visible-head") && t1.contains("visible-tail") };
+        if !visible_ok {
+            res.violation("ordinary-output-lost", || format!("the non-note lines are missing from n2's output:\n{}", t1.chars().take(600).collect::<String>()), replay);
+            continue;
+        }
+        let o2 = n2(&[]);
+        let t2 = String::from_utf8_lossy(&o2.stdout).to_string();
+        if !t2.contains("no work to do") {
+            res.violation("rebuilt-without-change", || format!("second invocation: {}", t2), replay);
+            continue;
+        }
+        // Every reported header is remembered: editing any of them rebuilds.
+        let probe: Vec<&String> = if variant == 0 { headers.iter().collect() } else { vec![&headers[0], &headers[40], &headers[150], &headers[299]] };
+        let mut ok = true;
+        for h in probe {
+            std::thread::sleep(std::time::Duration::from_millis(20));
+            std::fs::write(h, format!("changed {}", h)).unwrap();
+            let o3 = n2(&[]);
+            let t3 = String::from_utf8_lossy(&o3.stdout).to_string();
+            if !t3.contains("ran 1 task") {
+                res.violation("reported-header-not-remembered", || format!("after editing {} the step was not rebuilt: {}", h, t3), replay);
+                ok = false;
+                break;
+            }
+        }
+        if ok {
+            res.nontrivial += 1;
+            res.outcome("msvc-ok");
+        }
+    }
+}
+
+// --- conformance: scripted executor vs. real processes ------------------------------
+
+/// The same short histories are played twice: in-process under the scripted,
+/// gated executor (what every sched/hist/crash check uses) and through the
+/// shipped binary with real shell commands that log their own execution.  The
+/// set of commands run by every invocation and the exit status must agree.
+fn conform_job(ctx: &mut Ctx, res: &mut ShardResult) {
+    use crate::eng_hist::{apply_edit, edit_alphabet, initial, run_once, templates, EditOp};
+    use crate::exec::BuildResult;
+    crate::exec::install_hooks();
+    let job = ctx.job.clone();
+    let all = templates();
+    let names = ["depfile-chain", "msvc-chain", "diamond", "rspfile", "two-objects", "restat-upstream"];
+    let mut idx = 0u64;
+    for tn in names {
+        let t = all.iter().find(|t| t.name == tn).expect("template");
+        // the edit alphabet of the built state
+        std::fs::create_dir_all("sim").unwrap();
+        std::env::set_current_dir("sim").unwrap();
+        let root = initial(t);
+        let (r0, _) = run_once(t, root.sim.clone(), &[], 1, None, false, vec![], None);
+        let mut built = root.clone();
+        built.sim = r0.sim.clone();
+        built.snap = crate::exec::snapshot();
+        let edits: Vec<EditOp> = edit_alphabet(t, &built).into_iter().filter(|e| !matches!(e, EditOp::Variant(_) | EditOp::GenVariant(_) | EditOp::RemoveSource(_))).collect();
+        std::env::set_current_dir("..").unwrap();
+        for e in std::iter::once(None).chain(edits.iter().map(Some)) {
+            idx += 1;
+            if let Some(c) = &ctx.replay {
+                if c["index"].as_u64() != Some(idx) {
+                    continue;
+                }
+            } else if idx % ctx.nshards != ctx.shard {
+                continue;
+            }
+            ctx.marker.set(idx, format!("{} {:?}", tn, e).as_bytes());
+            res.evaluations += 1;
+            // --- scripted side
+            fresh();
+            std::fs::create_dir_all("sim").unwrap();
+            std::env::set_current_dir("sim").unwrap();
+            let mut node = initial(t);
+            let (r1, _) = run_once(t, node.sim.clone(), &[], 1, None, false, vec![], None);
+            let ran1: Vec<String> = r1.sim.ran.iter().map(|r| r.cmdline.clone()).collect();
+            node.sim = r1.sim.clone();
+            if let Some(e) = e {
+                apply_edit(t, &mut node, e);
+            }
+            let (r2, _) = run_once(t, node.sim.clone(), &[], 1, None, false, vec![], None);
+            let ran2: Vec<String> = r2.sim.ran.iter().skip(r1.sim.ran.len()).map(|r| r.cmdline.clone()).collect();
+            let ok2 = matches!(r2.result, BuildResult::Success(_));
+            std::env::set_current_dir("..").unwrap();
+            // --- real side
+            std::fs::create_dir_all("real").unwrap();
+            std::env::set_current_dir("real").unwrap();
+            let p = t.variants[0].clone();
+            let mut rp = p.clone();
+            for st in rp.steps.iter_mut() {
+                if st.phony {
+                    continue;
+                }
+                let key = st.outs[0].clone();
+                let mut c = format!("echo '{}' >> ran.log", st.cmdline);
+                for o in st.outs.iter().chain(st.implicit_outs.iter()) {
+                    if t.skip_outputs.contains(o) {
+                        continue;
+                    }
+                    if t.restat_like.contains(&key) {
+                        // leave the output alone when its content would not change
+                        c.push_str(&format!("; cat {} > {}.new 2>/dev/null; if cmp -s {}.new {}; then rm {}.new; else mv {}.new {}; fi", st.dirtying_ins().iter().map(|x| x.as_str()).collect::<Vec<_>>().join(" "), o, o, o, o, o, o));
+                    } else {
+                        c.push_str(&format!("; date +%N > {}", o));
+                    }
+                }
+                if let Some(df) = &st.depfile {
+                    c.push_str(&format!("; printf '%s: %s\\n' {} \"$$(cat reports_{}.txt)\" > {}", key, key, df));
+                }
+                if st.msvc {
+                    c.push_str(&format!("; for h in $$(cat reports_{}.txt); do echo \"Note: including file: $$h\"; done", key));
+                }
+                if let Some(files) = t.side_touch.get(&key) {
+                    for f in files {
+                        c.push_str(&format!("; touch {}", f));
+                    }
+                }
+                st.cmdline = c;
+            }
+            // manifest_text escapes `$` itself; undo the double escaping above
+            for st in rp.steps.iter_mut() {
+                st.cmdline = st.cmdline.replace("$$", "$");
+            }
+            std::fs::write("build.ninja", rp.manifest_text()).unwrap();
+            for sfile in p.sources() {
+                std::fs::write(&sfile, format!("source {}", sfile)).unwrap();
+            }
+            for h in &t.headers {
+                std::fs::write(h, "h").unwrap();
+            }
+            let write_reports = |reports: &std::collections::BTreeMap<String, Vec<String>>| {
+                for st in &p.steps {
+                    let key = &st.outs[0];
+                    let r = reports.get(key).cloned().unwrap_or_default();
+                    std::fs::write(format!("reports_{}.txt", key), r.join(" ")).unwrap();
+                }
+            };
+            write_reports(&t.reports);
+            let run_real = || -> (Vec<String>, bool) {
+                let _ = std::fs::remove_file("ran.log");
+                let o = n2(&["-j", "1"]);
+                let log = std::fs::read_to_string("ran.log").unwrap_or_default();
+                (log.lines().map(|l| l.to_string()).collect(), o.code == Some(0))
+            };
+            let (real1, _) = run_real();
+            std::thread::sleep(std::time::Duration::from_millis(15));
+            if let Some(e) = e {
+                match e {
+                    EditOp::Touch(f) => std::fs::write(f, format!("edited {}", idx)).unwrap(),
+                    EditOp::RemoveOut(f) => {
+                        let _ = std::fs::remove_file(f);
+                    }
+                    EditOp::TouchOut(f) => {
+                        let data = std::fs::read(f).unwrap_or_default();
+                        std::fs::write(f, data).unwrap();
+                    }
+                    EditOp::RemoveHeader(h) => {
+                        let _ = std::fs::remove_file(h);
+                        let mut r = node.sim.reports.clone();
+                        for v in r.values_mut() {
+                            v.retain(|x| x != h);
+                        }
+                        write_reports(&r);
+                    }
+                    EditOp::Reports(_, _) => {
+                        write_reports(&node.sim.reports);
+                        // the source was edited too
+                        for st in &p.steps {
+                            if Some(&st.outs[0]) == match e { EditOp::Reports(k, _) => Some(k), _ => None } {
+                                if let Some(src) = st.dirtying_ins().first() {
+                                    std::fs::write(src, format!("edited {}", idx)).unwrap();
+                                }
+                            }
+                        }
+                    }
+                    _ => {}
+                }
+            }
+            std::thread::sleep(std::time::Duration::from_millis(15));
+            let (real2, real_ok2) = run_real();
+            std::env::set_current_dir("..").unwrap();
+            let norm = |v: &Vec<String>| {
+                let mut x = v.clone();
+                x.sort();
+                x
+            };
+            let replay = || json!({"job": job, "index": idx});
+            if norm(&ran1) != norm(&real1) || norm(&ran2) != norm(&real2) || ok2 != real_ok2 {
+                res.violation(
+                    "scripted-and-real-executor-disagree",
+                    || format!("template {}, edit {:?}: scripted run sets {:?} then {:?} (ok {}), real processes {:?} then {:?} (ok {})", tn, e, ran1, ran2, ok2, real1, real2, real_ok2),
+                    replay,
+                );
+            } else {
+                if !ran2.is_empty() {
+                    res.nontrivial += 1;
+                }
+                res.outcome(&format!("conform-ok-{}", tn));
+            }
+        }
+    }
+    res.sample(|| json!({"templates": names}));
+}
+
+// --- -C / -f / builddir (C18) ---------------------------------------------------
+
+fn flags_job(ctx: &mut Ctx, res: &mut ShardResult) {
+    let job = ctx.job.clone();
+    let mut idx = 0u64;
+    for use_c in [false, true] {
+        for use_f in [false, true] {
+            for use_builddir in [false, true] {
+                idx += 1;
+                if let Some(c) = &ctx.replay {
+                    if c["index"].as_u64() != Some(idx) {
+                        continue;
+                    }
+                } else if idx % ctx.nshards != ctx.shard {
+                    continue;
+                }
+                ctx.marker.set(idx, format!("C={} f={} builddir={}", use_c, use_f, use_builddir).as_bytes());
+                fresh();
+                res.evaluations += 1;
+                let dir = if use_c { "proj" } else { "." };
+                std::fs::create_dir_all(dir).unwrap();
+                let fname = if use_f { "other.ninja" } else { "build.ninja" };
+                let mut manifest = String::new();
+                if use_builddir {
+                    manifest.push_str("builddir = bd/sub\n");
+                }
+                manifest.push_str("rule cp\n  command = cp $in $out && echo ran-$out >> log.txt\nbuild mid: cp src\nbuild top: cp mid\nbuild unrelated: cp src2\ndefault top\n");
+                std::fs::write(format!("{}/{}", dir, fname), &manifest).unwrap();
+                std::fs::write(format!("{}/src", dir), "s").unwrap();
+                std::fs::write(format!("{}/src2", dir), "s2").unwrap();
+                let mut args: Vec<String> = Vec::new();
+                if use_c {
+                    args.push("-C".into());
+                    args.push("proj".into());
+                }
+                if use_f {
+                    args.push("-f".into());
+                    args.push(fname.into());
+                }
+                let a: Vec<&str> = args.iter().map(|s| s.as_str()).collect();
+                let o1 = n2(&a);
+                let o2 = n2(&a);
+                let replay = || json!({"job": job, "index": idx});
+                let log = std::fs::read_to_string(format!("{}/log.txt", dir)).unwrap_or_default();
+                let db_expected = if use_builddir { format!("{}/bd/sub/.n2_db", dir) } else { format!("{}/.n2_db", dir) };
+                let db_other = if use_builddir { format!("{}/.n2_db", dir) } else { format!("{}/bd/sub/.n2_db", dir) };
+                let t1 = String::from_utf8_lossy(&o1.stdout).to_string();
+                let t2 = String::from_utf8_lossy(&o2.stdout).to_string();
+                if o1.code != Some(0) || log != "ran-mid\nran-top\n" {
+                    res.violation("flags-change-what-is-built", || format!("C={} f={} builddir={}: exit {:?}, commands run: {:?}\n{}", use_c, use_f, use_builddir, o1.code, log, t1), replay);
+                    continue;
+                }
+                if !std::path::Path::new(&db_expected).exists() || std::path::Path::new(&db_other).exists() || (use_c && std::path::Path::new(".n2_db").exists()) {
+                    res.violation("log-in-wrong-place", || format!("C={} f={} builddir={}: expected the log at {}", use_c, use_f, use_builddir, db_expected), replay);
+                    continue;
+                }
+                if o2.code != Some(0) || !t2.contains("n2: no work to do") {
+                    res.violation("second-run-not-a-no-op", || format!("C={} f={} builddir={}: second run: {}", use_c, use_f, use_builddir, t2), replay);
+                    continue;
+                }
+                if std::path::Path::new(&format!("{}/unrelated", dir)).exists() {
+                    res.violation("built-outside-default-closure", || "the step outside `default top` was built".to_string(), replay);
+                    continue;
+                }
+                res.nontrivial += 1;
+                res.outcome("flags-ok");
+            }
+        }
+    }
+}
+
+// --- summary line (C19) -----------------------------------------------------------
+
+fn summary_job(ctx: &mut Ctx, res: &mut ShardResult) {
+    let job = ctx.job.clone();
+    for n in 0..=3usize {
+        fresh();
+        res.evaluations += 1;
+        let mut manifest = String::from("rule t\n  command = touch $out\n");
+        for i in 0..n {
+            manifest.push_str(&format!("build o{}: t\n", i));
+        }
+        manifest.push_str("build all: phony");
+        for i in 0..n {
+            manifest.push_str(&format!(" o{}", i));
+        }
+        manifest.push('\n');
+        std::fs::write("build.ninja", &manifest).unwrap();
+        let o = n2(&["all"]);
+        let text = String::from_utf8_lossy(&o.stdout).to_string();
+        let expect = match n {
+            0 => "n2: no work to do".to_string(),
+            1 => "n2: ran 1 task, now up to date".to_string(),
+            k => format!("n2: ran {} tasks, now up to date", k),
+        };
+        let last = text.lines().last().unwrap_or("").to_string();
+        if last != expect || o.code != Some(0) {
+            res.violation("summary-line-wrong", || format!("{} commands completed; last line {:?}, expected {:?}", n, last, expect), || json!({"job": job, "index": n}));
+            continue;
+        }
+        let o2 = n2(&["all"]);
+        let t2 = String::from_utf8_lossy(&o2.stdout).to_string();
+        if t2.lines().last() != Some("n2: no work to do") {
+            res.violation("no-work-line-missing", || format!("repeat with {} steps: {:?}", n, t2), || json!({"job": job, "index": n}));
+            continue;
+        }
+        res.nontrivial += 1;
+        res.outcome("summary-ok");
+    }
+    ctx.marker.tick();
+}
+
+// --- error classes on the binary (C12) ----------------------------------------------
+
+fn errors_job(_ctx: &mut Ctx, res: &mut ShardResult) {
+    let cases: Vec<(&str, &str, Vec<&str>, &str)> = vec![
+        ("syntax", "build a b\n", vec![], "n2: error: parse error: "),
+        ("syntax-eof", "x = $", vec![], "n2: error: parse error: "),
+        ("unknown-rule", "build a: nosuch\n", vec![], "n2: error: "),
+        ("unknown-target", "build a: phony\n", vec!["zz"], "n2: error: unknown path requested"),
+        ("empty-target", "build a: phony\n", vec![""], "n2: error: unknown path requested"),
+        ("cycle", "build a: phony b\nbuild b: phony a\n", vec![], "n2: error: dependency cycle"),
+        ("missing-input", "rule t\n  command = touch $out\nbuild a: t nosuchsrc\n", vec![], "n2: error: "),
+        ("dup-output", "rule t\n  command = touch $out\nbuild a: t\nbuild ./a: t\n", vec![], "n2: error: "),
+        ("include-cycle", "include build.ninja\n", vec![], "n2: error: "),
+        ("empty-path", "build $x: phony\n", vec![], "n2: error: "),
+        ("bad-flag", "build a: phony\n", vec!["--nosuchflag"], "n2: error: "),
+    ];
+    for (name, manifest, args, expect) in cases {
+        fresh();
+        res.evaluations += 1;
+        std::fs::write("build.ninja", manifest).unwrap();
+        let o = n2(&args);
+        let text = String::from_utf8_lossy(&o.stdout).to_string();
+        if o.code != Some(1) || !text.contains(expect) {
+            res.violation("binary-error-mapping", || format!("{}: exit {:?}, output {:?}; expected exit 1 and {:?}", name, o.code, text, expect), || json!({"job": "proc:errors", "name": name}));
+        } else {
+            res.nontrivial += 1;
+            res.outcome(&format!("error-ok-{}", name));
+        }
+    }
+}
+
+// --- /showIncludes filter ------------------------------------------------------------
+
+const FILTER_TOKENS: &[&str] = &["Note: including file: ", "x", " ", "\n", "\r", "y"];
+
+/// Reference: a line is removed (with its newline) iff it starts with the
+/// prefix; its dependency is the rest minus leading spaces and one trailing
+/// CR; every other byte is kept.
+fn reference_filter(input: &[u8]) -> (Vec<String>, Vec<u8>) {
+    let prefix = b"Note: including file: ";
+    let mut includes = Vec::new();
+    let mut kept: Vec<&[u8]> = Vec::new();
+    for line in input.split(|&c| c == b'\n') {
+        if let Some(rest) = line.strip_prefix(&prefix[..]) {
+            let mut r = rest;
+            while let Some((b' ', tail)) = r.split_first() {
+                r = tail;
+            }
+            if let Some((b'\r', head)) = r.split_last() {
+                r = head;
+            }
+            includes.push(String::from_utf8_lossy(r).to_string());
+        } else {
+            kept.push(line);
+        }
+    }
+    (includes, kept.join(&b'\n'))
+}
+
+fn filter_job(ctx: &mut Ctx, res: &mut ShardResult, max: u32) {
+    let job = ctx.job.clone();
+    let k = FILTER_TOKENS.len() as u64;
+    let total = count_upto(k, 0, max);
+    let (lo, hi) = shard_range(total, ctx.shard, ctx.nshards);
+    let mut buf = Vec::new();
+    let check = |buf: &[u8], res: &mut ShardResult| {
+        res.evaluations += 1;
+        let (want_inc, want_out) = reference_filter(buf);
+        let b2 = buf.to_vec();
+        match catch(|| n2::verif::verif_extract_showincludes(b2)) {
+            Err(p) => res.violation(&p.key(), || format!("filter panicked on {:?}: {}", String::from_utf8_lossy(buf), p.message), || json!({"job": job, "bytes": buf})),
+            Ok((inc, out)) => {
+                if inc != want_inc {
+                    res.violation("includes-differ", || format!("output {:?}: includes {:?}, expected {:?}", String::from_utf8_lossy(buf), inc, want_inc), || json!({"job": job, "bytes": buf}));
+                } else if out != want_out {
+                    let key = if want_out.starts_with(b"\n") && !out.starts_with(b"\n") { "leading-blank-lines-dropped" } else { "shown-output-differs" };
+                    res.violation(key, || format!("output {:?}: shown {:?}, expected {:?}", String::from_utf8_lossy(buf), String::from_utf8_lossy(&out), String::from_utf8_lossy(&want_out)), || json!({"job": job, "bytes": buf}));
+                } else {
+                    if !want_inc.is_empty() {
+                        res.nontrivial += 1;
+                    }
+                    res.outcome(if want_inc.is_empty() { "no-notes" } else { "notes-removed" });
+                }
+            }
+        }
+    };
+    if let Some(c) = &ctx.replay {
+        let bytes: Vec<u8> = c["bytes"].as_array().map(|a| a.iter().map(|x| x.as_u64().unwrap_or(0) as u8).collect()).unwrap_or_default();
+        check(&bytes, res);
+        return;
+    }
+    for_range(k, 0, max, lo, hi, |idx, seq| {
+        buf.clear();
+        for &s in seq {
+            buf.extend_from_slice(FILTER_TOKENS[s as usize].as_bytes());
+        }
+        ctx.marker.set(idx, &buf);
+        check(&buf, res);
+        if idx % 100_003 == 0 {
+            let b = buf.clone();
+            res.sample(|| json!({"command_output": String::from_utf8_lossy(&b)}));
+        }
+    });
+}
+
+pub fn run(ctx: &mut Ctx) -> ShardResult {
+    let mut res = ShardResult::default();
+    let job = ctx.job.clone();
+    let parts: Vec<&str> = job.split(':').collect();
+    match parts[1] {
+        "argv" => argv_job(ctx, &mut res),
+        "conform" => conform_job(ctx, &mut res),
+        "fdleak" => fdleak_job(ctx, &mut res),
+        "dirs" => dirs_job(ctx, &mut res),
+        "msvc" => msvc_job(ctx, &mut res),
+        "volume" => volume_job(ctx, &mut res),
+        "status" => status_job(ctx, &mut res),
+        "parallel" => parallel_job(ctx, &mut res),
+        "flags" => flags_job(ctx, &mut res),
+        "summary" => summary_job(ctx, &mut res),
+        "errors" => errors_job(ctx, &mut res),
+        "filter" => filter_job(ctx, &mut res, parts[2].parse().expect("bound")),
+        other => panic!("unknown proc job {}", other),
+    }
+    res
+}
+
+pub fn case_from_marker(job: &str, bytes: &[u8]) -> Value {
+    json!({"job": job, "bytes": bytes})
 }
